@@ -125,7 +125,17 @@ def ensure_makefile():
 def coq_make(targets, log, timeout=3000, keep_going=True):
     ensure_makefile()
     cmd = ["timeout", str(timeout), "make", "-j", JOBS] + (["-k"] if keep_going else []) + targets
-    rc, out = sh(cmd, cwd=COQ, timeout=timeout + 60)
+    for attempt in range(4):
+        rc, out = sh(cmd, cwd=COQ, timeout=timeout + 60)
+        # a stale .vo (e.g. after an interrupted run): remove it and rebuild
+        stale = re.findall(r"Compiled library \S+ \(in file (\S+\.vo)\) makes inconsistent assumptions", out)
+        if rc == 0 or not stale:
+            break
+        for f in set(stale):
+            try:
+                os.remove(f)
+            except OSError:
+                pass
     log.append(("make " + " ".join(targets), rc, out))
     return rc, out
 
